@@ -95,6 +95,12 @@ theorem logE_cb (e : Event K V Q) :
   simp only [World.trace, List.filter_append]
   cases h : e.isEff <;> simp [h]
 
+/-- recording a leak touches neither the container nor anything `WRel` tracks. -/
+theorem leak_cb (o : Obj K V) : CbOk (leak o : SM K V Q Unit) (fun _ => []) (fun _ _ => True) := by
+  intro s
+  unfold Sat leak modS
+  exact ⟨rfl, ⟨rfl, rfl, id, by simp [World.trace]⟩, trivial⟩
+
 /-- use a callback triple in front of a continuation. -/
 theorem Sat.cb {m : SM K V Q α} {tr Qv} (h : CbOk m tr Qv) {f : α → SM K V Q β} {s : St K V Q}
     {Qp : β → St K V Q → Prop} {P : PanicClass → St K V Q → Prop}
